@@ -307,7 +307,21 @@ def check(ctx):
 
     g = an.cfg(ext)
     decs = counter_nodes(ext, ast.Sub)
-    p = path_avoiding(an, ext, g.entry, lambda n: n is g.exit, lambda n: n in decs)
+    def not_positive_edge(a, b, lbl):
+        """the outcome of a test that says "the counter is not positive": there is nothing to decrement on that edge"""
+        if a.kind != "test" or a.ast is None:
+            return False
+        e = a.ast
+        if as_counter(ext, e, a):
+            return lbl is False
+        if isinstance(e, ast.Compare) and len(e.ops) == 1 and as_counter(ext, e.left, a) and isinstance(e.comparators[0], ast.Constant):
+            c, op = e.comparators[0].value, e.ops[0]
+            if (isinstance(op, ast.Gt) and c == 0) or (isinstance(op, ast.GtE) and c == 1) or (isinstance(op, ast.NotEq) and c == 0):
+                return lbl is False
+            if (isinstance(op, ast.LtE) and c == 0) or (isinstance(op, ast.Lt) and c == 1) or (isinstance(op, ast.Eq) and c == 0):
+                return lbl is True
+        return False
+    p = path_avoiding(an, ext, g.entry, lambda n: n is g.exit, lambda n: n in decs, edge_filter=lambda a, b, lbl: not not_positive_edge(a, b, lbl))
     ctx.ob("exit.decrements", ext, "counter -= 1 on every path", p is None and len(decs) == 1,
            "__exit__ decrements the reference count exactly once" if p is None and len(decs) == 1 else
            "__exit__ does not decrement the reference count exactly once on every path")
@@ -552,7 +566,29 @@ def check(ctx):
                 for t in tgts:
                     if isinstance(t, ast.Attribute) and isinstance(t.value, ast.Name) and t.value.id == f.self_name:
                         oka = t.attr in allowed
-                        ctx.ob("census.attributes", f, t, oka, "attribute of the census {filename, key slot, counter}" if oka else
+                        if not oka and isinstance(x, (ast.Assign, ast.AnnAssign)) and x.value is not None:
+                            # an option kept from the caller (self.mode = mode, self.create = bool(create)) or a constant cannot
+                            # hold key material: only what is computed from the key slot, from file content or by a call may
+                            pnames = {a.arg for a in f.params}
+
+                            def harmless(v, depth=0):
+                                if isinstance(v, ast.Constant):
+                                    return True
+                                if isinstance(v, ast.Name):
+                                    if v.id in pnames and v.id != f.self_name:
+                                        srcs_ = value_sources(f, v, None)
+                                        return all(k_ == "param" or (k_ == "expr" and isinstance(p_, ast.AST) and depth < 3 and harmless(p_, depth + 1)) for k_, p_ in srcs_)
+                                    return False
+                                if isinstance(v, ast.Call) and isinstance(v.func, ast.Name) and v.func.id in ("bool", "int", "str", "oct") and len(v.args) == 1:
+                                    return harmless(v.args[0], depth + 1)
+                                if isinstance(v, ast.IfExp):
+                                    return harmless(v.body, depth + 1) and harmless(v.orelse, depth + 1)
+                                if isinstance(v, ast.BoolOp):
+                                    return all(harmless(y, depth + 1) for y in v.values)
+                                return False
+                            if f.name == "__init__" and harmless(x.value) and not any(is_slot(y, f, slot) for y in ast.walk(x.value)):
+                                oka = True
+                        ctx.ob("census.attributes", f, t, oka, "attribute of the census {filename, key slot, counter}, or an option kept from the constructor's caller" if oka else
                                "KeyFile stores into a new attribute %r: the key may be retained there after the outermost exit" % t.attr,
                                node=x, nontrivial=not oka)
         # no non-private method returns key material
